@@ -167,15 +167,23 @@ package tree
 //@   loop 0 invariant forall(k, 0, i, rhtHas(t)[nodes[k].Hash] && rhtL(t)[nodes[k].Hash] == nodes[k].Left && rhtR(t)[nodes[k].Hash] == nodes[k].Right)
 
 //@ ghost field rootLastIdx int
+// the pinned SELECT as seen from getLastRootWithTx (SQL semantics assumed, A5): no row is the only reason for
+// sql.ErrNoRows; a row is the one ranked last. The function itself is proved: in particular only "no rows" may be
+// turned into "not found" (which the callers read as "the tree is empty"), every other failure stays a failure.
+//@ extern github.com/russross/meddler.QueryRow@tree.(*Tree).getLastRootWithTx (db, dst, query, args)
+//@   modifies *cast(dst, *types.Root)
+//@   ensures plainErr(result) && result != errvar("db.ErrNotFound")
+//@   ensures (result != nil && isErr(result, sql.ErrNoRows)) ==> rootLastIdx(caller.t) == -1
+//@   ensures (result != nil && !isErr(result, sql.ErrNoRows)) ==> !isErr(result, errvar("db.ErrNotFound"))
+//@   ensures result == nil ==> rootLastIdx(caller.t) >= 0 && cast(dst, *types.Root).Index == rootLastIdx(caller.t) && rootHas(caller.t)[cast(dst, *types.Root).Index] && cast(dst, *types.Root).Hash == rootHash(caller.t)[cast(dst, *types.Root).Index]
 //@ func (t *Tree) getLastRootWithTx
 //@   props C01 C04 C07 C08 C11
-//@   trusted
 //@   sqltext "SELECT * FROM %s ORDER BY block_num DESC, block_position DESC LIMIT 1;"
 //@   requires t != nil
 //@   modifies nothing
-//@   ensures (result1 != nil && isErr(result1, db.ErrNotFound)) ==> rootLastIdx(t) == -1
-//@   ensures plainErr(result1)
-//@   ensures result1 == nil ==> rootLastIdx(t) >= 0 && result0.Index == rootLastIdx(t) && rootHas(t)[result0.Index] && result0.Hash == rootHash(t)[result0.Index]
+//@   ensures[not-found-means-no-root] (result1 != nil && isErr(result1, db.ErrNotFound)) ==> rootLastIdx(t) == -1
+//@   ensures[never-the-syncers-inconsistency-error] plainErr(result1)
+//@   ensures[the-row-ranked-last] result1 == nil ==> rootLastIdx(t) >= 0 && result0.Index == rootLastIdx(t) && rootHas(t)[result0.Index] && result0.Hash == rootHash(t)[result0.Index]
 
 //@ func (t *Tree) GetLastRoot
 //@   props C07 C11 C14
